@@ -5,6 +5,7 @@ import re
 from collections import OrderedDict
 
 from chameleon.exc import ParseError
+from chameleon.exc import UndefinedNamespacePrefix
 from chameleon.namespaces import XML_NS
 from chameleon.tokenize import Token
 
@@ -152,8 +153,8 @@ def unpack_attributes(attributes, namespace, default, restricted_namespace):
                 ns = namespace[prefix]
             except KeyError:
                 if restricted_namespace:
-                    raise KeyError(
-                        "Undefined namespace prefix: %s." % prefix)
+                    raise UndefinedNamespacePrefix(
+                        "Undefined namespace prefix: %s." % prefix, prefix)
                 else:
                     ns = default
         else:
